@@ -22,6 +22,29 @@ spec fn all_have_pred(d: DFA) -> bool {
     forall|s: u32| #[trigger] is_end(d, s) && s != d.starting_state ==> exists|p: u32, a: InpId| #[trigger] used(d, p, a) && d.transitions@[p][a] == s
 }
 
+/// run of a transition table over a word of symbol ids; None = stuck
+spec fn trun(tab: Map<u32, Map<InpId, u32>>, q: u32, w: Seq<InpId>) -> Option<u32>
+    decreases w.len()
+{
+    if w.len() == 0 { Some(q) }
+    else if cell_in(tab, q, w[0]) { trun(tab, tab[q][w[0]], w.drop_first()) }
+    else { None }
+}
+
+spec fn tacc(tab: Map<u32, Map<InpId, u32>>, q: u32, acc: ISet<u32>, w: Seq<InpId>) -> bool {
+    trun(tab, q, w) is Some && acc.contains(trun(tab, q, w)->0)
+}
+
+/// every state has a row (possibly an empty one)
+#[verifier::opaque]
+spec fn rows_total(d: DFA) -> bool { forall|q: u32| #[trigger] is_end(d, q) ==> d.transitions@.contains_key(q) }
+
+/// every state is reached from the start state by some word
+#[verifier::opaque]
+spec fn reach_ok(d: DFA) -> bool {
+    forall|q: u32| #[trigger] is_end(d, q) ==> exists|w: Seq<InpId>| trun(d.transitions@, d.starting_state, w) == Some(q)
+}
+
 /// every accepting state other than the start state is an end of some transition
 spec fn acc_occur(d: DFA) -> bool {
     forall|s: u32| d.accepting_states@.contains(s) && s != d.starting_state ==> is_end(d, s)
